@@ -68,6 +68,17 @@ register("C13", "fault_enumeration",
  "crash-point enumeration + fault injection at enumerated completion steps, invariant over each durable snapshot",
  "DESIGN.md section 3 C13")
 
+register("C10", "exploration",
+ "One and two recovery sweeps are injected before EVERY delivery position of the FIFO run (and one per position under two hold-back schedules, plus 'a sweep before every step') of the corpus specs, and at random positions of Hypothesis-drawn (spec, schedule) pairs in which the sweep's extra messages may overtake the originals; each run is judged against the sweep-free FIFO run (exact execution counts and data on confluent specs, validity predicate on racy ones). After a crash: one sweep vs two from every sampled (thorough: every) crash state must give the same signature.",
+ "A sweep running concurrently with a handler (statement-level interleaving) is not covered in this revision; single worker; SQLite only.",
+ "exhaustive sweep-position enumeration + Hypothesis specs x schedules, differential against the sweep-free run; crash-state metamorphic relation (recover x1 == recover x2)",
+ "DESIGN.md section 3 C10")
+register("C12", "exploration",
+ "Generated workflows (success, failures, skip, cancel, loops, gate+signal) are run crash-free under generated schedules with the event store in the workflow database; then (1) the replayed status of the workflow and of every entity whose last durable change came from a regular lifecycle step is compared with the store, (2) rebuild(as_of=s) is compared with an independent fold of the events <= s for EVERY prefix, (3) for EVERY snapshot position p the snapshot+tail rebuild (and as-of queries at/after p) is compared with the snapshot-free rebuild.",
+ "The fold oracle is an independent re-implementation of the documented event semantics; timestamps not restored by snapshots are not compared; crash-free runs; same-database event store.",
+ "Hypothesis specs x schedules; per run exhaustive prefix and snapshot-position enumeration against a reference fold / round-trip",
+ "DESIGN.md section 3 C12")
+
 NOT_APPLICABLE = {}
 
 def main():
